@@ -15,6 +15,22 @@ use simkit::*;
 use std::collections::{BTreeMap, BTreeSet, HashSet};
 use std::time::Duration;
 
+/// This scenario evaluates clauses of several properties in sequence. A failing clause of another property must not end the
+/// evaluation (the running check would drop it and never reach its own clauses): it is recorded and the evaluation goes on.
+macro_rules! ensure {
+    ($cond:expr, $clause:expr, $($arg:tt)*) => {
+        if !($cond) {
+            let v = simkit::Violation { clause: ($clause).to_string(), detail: format!($($arg)*) };
+            if simkit::ctx::clause_is_foreign(&v.clause) {
+                simkit::soft_violation(v);
+            } else {
+                return Err(v);
+            }
+        }
+    };
+}
+
+
 const RULE: &str = "One real gossipsub Behaviour (drawn mesh parameters, prune/unsubscribe backoff, slack, flood_publish, peer scoring on/off, explicit peers, one of five subscription filters) and 4..11 scripted peers of every protocol kind (floodsub, gossipsub 1.0-1.3; inbound/outbound; up to two connections). Seeded operation sequence of 20..120 steps: connect, disconnect, SUBSCRIBE/UNSUBSCRIBE RPCs (also oversized and duplicated), GRAFT, PRUNE with drawn backoff, local subscribe/unsubscribe/publish, application scores, explicit-peer changes, heartbeats (virtual clock). After every step the public views and the queued RPCs (decoded with the real codec) are checked against the reference model";
 
 fn mk(id: &'static str, title: &'static str, extra: &'static str) -> Check {
